@@ -24,12 +24,12 @@ None     == [t |-> "none", n |-> 0, d |-> 1]
 
 \* a unit is an affine map to the base unit of its dimension: base = value * s + o  (s, o rationals <<num, den>>)
 \* "[len2]" and "[len5]" are the same custom symbol [len] defined as 2 m resp. 5 m by a $unit line
-S(u) == CASE u = "m" -> <<1, 1>> [] u = "cm" -> <<1, 100>> [] u = "km" -> <<1000, 1>>
+S(u) == CASE u = "m" -> <<1, 1>> [] u = "cm" -> <<1, 100>> [] u = "km" -> <<1000, 1>> [] u = "mm" -> <<1, 1000>>
           [] u = "s" -> <<1, 1>> [] u = "ms" -> <<1, 1000>>
           [] u = "[len2]" -> <<2, 1>> [] u = "[len5]" -> <<5, 1>>
           [] OTHER -> <<1, 1>>
 O(u) == IF u = "Cel" THEN <<27315, 100>> ELSE <<0, 1>>
-Dim(u) == CASE u \in {"m", "cm", "km", "[len2]", "[len5]"} -> "L" [] u \in {"s", "ms"} -> "T" [] u \in {"K", "Cel"} -> "Th" [] OTHER -> "0"
+Dim(u) == CASE u \in {"m", "cm", "km", "mm", "[len2]", "[len5]"} -> "L" [] u \in {"s", "ms"} -> "T" [] u \in {"K", "Cel"} -> "Th" [] OTHER -> "0"
 
 RECURSIVE Gcd(_, _)
 Gcd(a, b) == IF b = 0 THEN a ELSE Gcd(b, a % b)
